@@ -12,7 +12,7 @@ func init() {
 		Title: "ParseSource is total: any input ends in a value or a located syntax diagnostic",
 		Rule: "Every input is parsed by the real ParseSource under an outcome classifier: value | panic whose payload is a text naming a token with line and position, the position lying inside the source and the source reading that token there | anything else (runtime.Error, other panics) = violation; after each call runtime.Stack(all) is searched for scanner goroutines (a goroutine parked in a channel send after the call ended is a leak). " +
 			"Families: random bytes; valid tokens in random order; prefixes, single-character deletions/insertions/substitutions and rotations of valid documents (formatted by the repository or derived from the grammar); every item kind x every type context (incl. unknown and missing) with 1..40 items and up to 40 trailing tokens; an illegal character injected at a random position outside literals of multi-line documents (the diagnostic must be an error token at exactly that line and column). " +
-			"Malformed documents with long tails are also parsed under the controlled scheduler (the scanner goroutine is adopted through the spawn/end hooks): depth-first over the schedules of scanner and parser with at most two preemptions (150 / 3000 per document); on every schedule the outcome is classified as above, is the same as on the first schedule, and nobody - in particular not the scanner - is left parked. " +
+			"Malformed documents with long tails are also parsed under the controlled scheduler (the scanner goroutine is adopted through the spawn/end hooks): depth-first over the schedules of scanner and parser with at most two preemptions (150 / 1000 per document); on every schedule the outcome is classified as above, is the same as on the first schedule, and nobody - in particular not the scanner - is left parked. " +
 			"Plus Go's coverage-guided fuzzer (go test -fuzz, same classifier and leak monitor, seed corpus of valid documents) for 20 000 (quick) / 1 000 000 (thorough) executions. distinct_nontrivial = distinct inputs.",
 		Assumptions: []string{
 			"the diagnostic format 'Token [type: T, line: L, position: C]: \"text\"' is what identifies a located syntax diagnostic",
@@ -24,7 +24,7 @@ func init() {
 			{Name: "inputs/mutated-documents", Count: core.FixedCount(30000, 800000), BlockIsViolation: true, Run: func(c *core.Ctx, idx int) { cdcnmon.RunC12Random(c, "mutated") }},
 			{Name: "inputs/kind-context-mismatch", Count: core.FixedCount(cdcnmon.C12MismatchCases(), cdcnmon.C12MismatchCases()*8), BlockIsViolation: true, Run: cdcnmon.RunC12Mismatch},
 			{Name: "inputs/reused-notation", Count: core.FixedCount(8000, 150000), BlockIsViolation: true, Run: func(c *core.Ctx, idx int) { cdcnmon.RunReusedNotation(c, "C12") }},
-			{Name: "m1/scanner-parser-schedules", Pool: "m1", Count: core.FixedCount(300, 6000), CPULimit: 600,
+			{Name: "m1/scanner-parser-schedules", Pool: "m1", Count: core.FixedCount(300, 1500), CPULimit: 600,
 				Run: func(c *core.Ctx, idx int) {
 					if conc.M1Disabled(c) {
 						return
